@@ -233,6 +233,81 @@ fn one_history(run: &Run, case: u64) {
     run.sample(|| json!({"case": case, "history": descs}));
 }
 
+/// Scale: versions of more than 10 000 index hunks (two hunk subdirectories) through backup,
+/// gc and delete, under the same rules.
+fn many_hunks(run: &Run) {
+    let mut w = crate::history::many_hunks_world("c07big", run.seed);
+    let o = crate::history::MANY_HUNKS_OPTS;
+    let mut descs: Vec<String> = Vec::new();
+    run.eval();
+    let steps: [&str; 5] = ["backup", "change+backup", "gc", "delete-newest", "gc"];
+    for (step, what) in steps.iter().enumerate() {
+        let raw_before = w.raw(false);
+        let rep = match *what {
+            "backup" => w.backup(o),
+            "change+backup" => {
+                let mut spec = w.spec.clone();
+                for i in [3u32, 4_999, 9_998, 9_999, 10_000, 10_039] {
+                    let mut n = tree::Node::file(format!("changed {i}").into_bytes());
+                    n.mtime_s = 1_700_000_000 + i as i64;
+                    spec.insert(format!("/f{i:05}"), n);
+                }
+                spec.remove("/f00007");
+                spec.remove("/f10001");
+                w.set_spec(spec);
+                w.backup(o)
+            }
+            "gc" => w.delete(&[], false),
+            _ => {
+                let newest = *raw_before.bands.keys().max().unwrap();
+                w.delete(&[newest], false)
+            }
+        };
+        descs.push(format!("[10 040-file tree, 1 entry per hunk] {}", rep.desc));
+        let replay = json!({"many_hunks": true, "step": step, "history": descs});
+        let after = fmt06::dir_bytes(&w.arch);
+        let res = match rep.kind {
+            StepKind::Backup => {
+                if !rep.backup.as_ref().map(|b| b.clean()).unwrap_or(false) {
+                    Err(("many-hunks-backup-failed".to_string(), rep.backup.as_ref().unwrap().describe()))
+                } else {
+                    check_backup_events(&rep.events, &[1]).and_then(|n| {
+                        run.count("backup_mutating_ops_checked", n);
+                        check_only_added(&rep.before, &after)
+                    })
+                }
+            }
+            _ => {
+                if !rep.delete.as_ref().map(|d| d.ok()).unwrap_or(false) {
+                    Err(("many-hunks-delete-failed".to_string(), rep.delete.as_ref().unwrap().describe()))
+                } else {
+                    check_delete_events(&rep, &after, &raw_before).map(|n| run.count("delete_mutating_ops_checked", n))
+                }
+            }
+        };
+        if let Err((sig, d)) = res {
+            run.violation(sig, format!("{}: {d}", descs.last().unwrap()), replay);
+            return;
+        }
+        let raw = w.raw(true);
+        if raw.bands.values().any(|b| b.hunks.len() > 10_000) {
+            run.count("steps_on_archives_with_more_than_10000_hunks_in_a_band", 1);
+        }
+        // every remaining version still has all its blocks
+        for id in raw.bands.keys() {
+            let d = raw.dangling_refs(*id);
+            if !d.is_empty() {
+                run.violation("referenced-block-gone", format!("{}: b{id:04}: {:?}", descs.last().unwrap(), &d[..d.len().min(3)]), replay);
+                return;
+            }
+        }
+    }
+    let (id, snap) = w.sources.iter().next().map(|(a, b)| (*a, b.clone())).unwrap();
+    if let Err(m) = crate::oracle::restore_and_compare(&w.arch, Some(id), &snap, &w.sc, &tree::CmpOpts::default()) {
+        run.violation(format!("many-hunks:{}", m.class), m.detail, json!({"many_hunks": true, "history": descs}));
+    }
+}
+
 // ---------------------------------------------------------------------------
 // two concurrent backups
 
@@ -425,9 +500,14 @@ fn race_plans(n: usize, tier: Tier, rng: &mut Rng) -> Vec<Plan> {
 pub fn run(tier: Tier, replay: Option<Value>) -> i32 {
     let run = Run::new("C07", "exploration", tier, replay.clone());
     let is_race_replay = replay.as_ref().and_then(|r| r.get("race")).is_some();
-    if !is_race_replay {
+    if !is_race_replay && replay.as_ref().and_then(|r| r.get("many_hunks")).is_none() {
         let n = tier.pick(150, 6000);
         run.par_cases(n, super::threads(), |case| one_history(&run, case));
+    }
+    if replay.is_none() || replay.as_ref().and_then(|r| r.get("many_hunks")).is_some() {
+        if let Err(m) = crate::report::guard(|| many_hunks(&run)) {
+            run.inconclusive(format!("harness error in the many-hunks history: {m}"));
+        }
     }
     if replay.is_none() || is_race_replay {
         for case in 0..tier.pick(3u64, 16) {
@@ -476,10 +556,10 @@ pub fn run(tier: Tier, replay: Option<Value>) -> i32 {
         }
     }
     let needs: &[(&str, u64)] = if replay.is_some() { &[] } else {
-        &[("backup_mutating_ops_checked", 200), ("delete_mutating_ops_checked", 20), ("interrupted_or_torn_backups", 5), ("race_schedules_run", 50), ("races_on_the_same_band_id", 5)]
+        &[("backup_mutating_ops_checked", 200), ("delete_mutating_ops_checked", 20), ("interrupted_or_torn_backups", 5), ("race_schedules_run", 50), ("races_on_the_same_band_id", 5), ("steps_on_archives_with_more_than_10000_hunks_in_a_band", 3)]
     };
     run.finish(
-        "part 1: histories as in C02, with backups killed at a random operation incl. torn writes, then resumed; the interceptor records for every mutating storage operation the actor, verb, write mode, payload hash and the pre/post state of the target read directly from disk; rules: a backup issues only create_dir and CreateNew writes, never removes, a successful write's target was absent or zero-length, a write onto a non-empty file fails and leaves it unchanged, no path is written twice, every earlier file is byte-identical afterwards (zero-length leftovers may be completed), the new band id exceeds every existing id; delete/gc removes only requested band directories, blocks that an independent reference scan of the kept bands does not reference, and GC_LOCK. part 2: two concurrent backups of differing sources under the deterministic scheduler (all schedules with <=1 preemption, a grid / all of 2 preemptions, random 3-6 switches): same rules on the merged log, each band directory written by one actor only, same id chosen by both => exactly one returns Ok, every complete version whose backup reported no error restores its own source. Distinct = history text / grant sequence.",
+        "part 1: histories as in C02, with backups killed at a random operation incl. torn writes, then resumed; the interceptor records for every mutating storage operation the actor, verb, write mode, payload hash and the pre/post state of the target read directly from disk; rules: a backup issues only create_dir and CreateNew writes, never removes, a successful write's target was absent or zero-length, a write onto a non-empty file fails and leaves it unchanged, no path is written twice, every earlier file is byte-identical afterwards (zero-length leftovers may be completed), the new band id exceeds every existing id; delete/gc removes only requested band directories, blocks that an independent reference scan of the kept bands does not reference, and GC_LOCK; one history (backup, change, backup, gc, delete newest, gc) runs on a tree of 10 040 files with one entry per hunk, so that the kept versions have hunks in two index subdirectories. part 2: two concurrent backups of differing sources under the deterministic scheduler (all schedules with <=1 preemption, a grid / all of 2 preemptions, random 3-6 switches): same rules on the merged log, each band directory written by one actor only, same id chosen by both => exactly one returns Ok, every complete version whose backup reported no error restores its own source. Distinct = history text / grant sequence.",
         &["pre/post states are read while the issuing actor is the only one running", "schedules beyond the preemption bound are sampled"],
         Some(false),
         needs,
